@@ -42,6 +42,11 @@ pub struct Case {
     pub clip: ClipSpec,
     /// integer translation used by the position-independence replay (solid sources only)
     pub shift: (i32, i32),
+    /// draw inside a layer pushed under this clip rectangle (layer origin = its top-left corner): the
+    /// previous values are first written into the layer, the layer is popped with opacity 1 / SrcOver onto
+    /// a transparent surface, so the surface then shows the layer's pixels
+    #[serde(default)]
+    pub layer: Option<(i32, i32, i32, i32)>,
 }
 
 fn shift_path(p: &PathSpec, dx: i32, dy: i32) -> PathSpec {
@@ -69,10 +74,19 @@ fn render(c: &Case, ox: i32, oy: i32) -> Vec<u32> {
             init[((y + oy) * bw + x + ox) as usize] = c.init[(y * c.w + x) as usize];
         }
     }
-    let mut dt = DrawTarget::from_vec(bw, bh, init);
+    let in_layer = c.layer.is_some() && ox == 0 && oy == 0;
+    let mut dt = if in_layer { DrawTarget::new(bw, bh) } else { DrawTarget::from_vec(bw, bh, init.clone()) };
     // the window itself is a clip rect when shifted, so that the enlarged margin cannot matter
     if ox != 0 || oy != 0 {
         dt.push_clip_rect(irect(ox, oy, ox + c.w, oy + c.h));
+    }
+    if in_layer {
+        let r = c.layer.unwrap();
+        dt.push_clip_rect(irect(r.0, r.1, r.2, r.3));
+        dt.push_layer(1.0);
+        // previous values go into the layer: Src at full coverage writes the texels exactly
+        let image = Image { width: bw, height: bh, data: &init };
+        dt.draw_image_at(0.0, 0.0, &image, &DrawOptions { blend_mode: BlendMode::Src, alpha: 1.0, antialias: AntialiasMode::Gray });
     }
     match &c.clip {
         ClipSpec::None => {}
@@ -102,6 +116,17 @@ fn render(c: &Case, ox: i32, oy: i32) -> Vec<u32> {
                 dt.clear(solid_of(*col));
             }
         }
+    }
+    if in_layer {
+        match &c.clip {
+            ClipSpec::None => {}
+            ClipSpec::PathRect(..) => {
+                dt.pop_clip();
+                dt.pop_clip();
+            }
+            _ => dt.pop_clip(),
+        }
+        dt.pop_layer();
     }
     let data = dt.get_data();
     let mut out = Vec::with_capacity((c.w * c.h) as usize);
@@ -201,6 +226,15 @@ pub fn check(c: &Case) -> CheckResult {
     let got = render(c, 0, 0);
     let mut kinds = std::collections::HashSet::new();
     for i in 0..n {
+        if let Some(r) = c.layer {
+            let (x, y) = (i as i32 % c.w, i as i32 / c.w);
+            if !(x >= r.0 && x < r.2 && y >= r.1 && y < r.3) {
+                if got[i] != 0 {
+                    return Err(format!("pixel ({},{}) outside the layer's clip rectangle {:?} is {} on a transparent surface", x, y, r, hex(got[i])));
+                }
+                continue;
+            }
+        }
         match judge_pixel(mode, s_img[i], c.init[i], &ms[i], &cs[i], got[i], TOL) {
             Ok(k) => {
                 kinds.insert(k);
@@ -210,7 +244,7 @@ pub fn check(c: &Case) -> CheckResult {
         }
     }
     // position independence: the same inputs translated by whole pixels give bit-identical results
-    if c.src.is_solid() && c.shift != (0, 0) {
+    if c.src.is_solid() && c.shift != (0, 0) && c.layer.is_none() {
         let got2 = render(c, c.shift.0, c.shift.1);
         // an antialiased coverage byte may legitimately be 16k or 16k-1 depending on where the span
         // starts (C01), so for that route the translated render is judged by the formula again
@@ -260,6 +294,8 @@ pub fn check(c: &Case) -> CheckResult {
     });
     o.class_if(mode != SRC_OVER, "non-srcover");
     o.class(c.src.kind());
+    o.class_if(c.layer.is_some(), "inside-layer");
+    o.class_if(matches!(c.layer, Some(r) if r.0 > 0 || r.1 > 0), "inside-layer-with-nonzero-origin");
     Ok(o)
 }
 
@@ -281,12 +317,15 @@ pub fn strategy(ctx: &Ctx) -> BoxedStrategy<Case> {
                 1 => (grid_poly(w, h, false), int_rect(w, h)).prop_map(|(p, r)| ClipSpec::PathRect(p, r)),
             ];
             let src = prop_oneof![6 => solid_src(), 2 => image_src(4), 2 => gradient_src(&ctx, w.max(h) as f32)];
-            (Just((w, h)), prop::collection::vec(px_premul(), (w * h) as usize), src, alpha_f(), blend_biased(), route, clip, (0i32..=3, 0i32..=3))
+            // a layer rectangle with a non-empty part on the surface, origin usually not (0,0)
+            let layer = prop::option::weighted(0.3, (0..w, 0..h).prop_flat_map(move |(x, y)| (Just(x), Just(y), x + 1..=w + 1, y + 1..=h + 1)));
+            (Just((w, h)), prop::collection::vec(px_premul(), (w * h) as usize), src, alpha_f(), blend_biased(), route, clip, (0i32..=3, 0i32..=3), layer)
         })
-        .prop_map(|((w, h), init, src, alpha, mode, route, clip, shift)| {
+        .prop_map(|((w, h), init, src, alpha, mode, route, clip, shift, layer)| {
             // clear() takes a solid colour
             let src = if matches!(route, Route::Clear) && !src.is_solid() { SrcSpec::Solid(0x80402010) } else { src };
-            Case { w, h, init, src, alpha, mode, route, clip, shift }
+            // clear() goes through the clip stack when a layer/clip is present: fine either way
+            Case { w, h, init, src, alpha, mode, route, clip, shift, layer }
         })
         .boxed()
 }
@@ -383,14 +422,14 @@ pub fn property(ctx: &Ctx) -> Property {
     let c = ctx.clone();
     Property {
         id: "C03",
-        rule: "part px: 1..8 x 1..8 surfaces where every pixel has its own premultiplied previous value; source solid/image/gradient under global alpha; coverage delivered by mask() bytes (each pixel its own byte), by AA or aliased fills of quarter-grid polygons (exact coverage from the 4x4 model), by fill_rect and clear; clip none / rect / quarter-grid path / path then rect; 28 blend modes. Oracle per pixel: exactly previous at weight 0, exactly blend(source, previous) at full weight, otherwise within 3/255 of the real-arithmetic coverage-weighted formula; source colour read from a Src render of the same source (solid sources checked against colour x alpha); same inputs translated by whole pixels must give bit-identical pixels. part sweep: exhaustive mode x coverage byte 0..255 x clip {none, full path, empty path} over a premultiplied boundary lattice of (source, previous) pairs. Non-trivial: case with >=1 partially weighted pixel, or a full-weight pixel under a mode other than SrcOver; distinct by hash of (size, source, alpha, mode, route, clip).",
+        rule: "part px: 1..8 x 1..8 surfaces where every pixel has its own premultiplied previous value; source solid/image/gradient under global alpha; coverage delivered by mask() bytes (each pixel its own byte), by AA or aliased fills of quarter-grid polygons (exact coverage from the 4x4 model), by fill_rect and clear; clip none / rect / quarter-grid path / path then rect; 28 blend modes; in 30% of the cases the whole draw happens inside a layer pushed under an offset clip rectangle (layer origin != (0,0)). Oracle per pixel: exactly previous at weight 0, exactly blend(source, previous) at full weight, otherwise within 3/255 of the real-arithmetic coverage-weighted formula; source colour read from a Src render of the same source (solid sources checked against colour x alpha); same inputs translated by whole pixels must give bit-identical pixels. part sweep: exhaustive mode x coverage byte 0..255 x clip {none, full path, empty path} over a premultiplied boundary lattice of (source, previous) pairs. Non-trivial: case with >=1 partially weighted pixel, or a full-weight pixel under a mode other than SrcOver; distinct by hash of (size, source, alpha, mode, route, clip).",
         assumptions: vec![
             "blend(source, previous) is sw_composite::blend::<Mode>::blend, the formula library the property names",
             "between weight 0 and 1 the rounding scheme is not pinned: +-3/255 per channel",
             "AA coverage is known up to C01's 16k / 16k-1 alternatives; a pixel is accepted if any admissible coverage explains it",
         ],
         parts: vec![part("px", 40_000, 1_500_000, move || strategy(&c), check), enum_part("sweep", 28 * 256 * 3, 28 * 256 * 3, sweep_decode, check_sweep)],
-        min_class_fraction: vec![("px", "px:partial", 0.3), ("px", "non-srcover", 0.3), ("px", "clip:path", 0.15), ("px", "route:mask", 0.15), ("px", "px:w=1", 0.3)],
+        min_class_fraction: vec![("px", "px:partial", 0.3), ("px", "non-srcover", 0.3), ("px", "clip:path", 0.15), ("px", "route:mask", 0.15), ("px", "px:w=1", 0.2), ("px", "inside-layer-with-nonzero-origin", 0.1)],
         panic_is_violation: false,
     }
 }
